@@ -1,6 +1,10 @@
 /* C15 driver (real library, real threads, real futex): one timed entry point with one deadline per process.
    usage: deadline_driver <entry> <kind> <sec> <nsec>
      entry: cv | mu | note | counter | waitn | cvn | mun | rmun | waitn5
+            cvtp | mutp | notetp | countertp | waitntp | exptp (C++ builds only): the same entry points through the C++ overloads that take a
+             std::chrono::system_clock::time_point (public/nsync_time_internal.h; the deadline is converted by nsync_from_time_point_), and
+             exptp: nsync_note_expiry_timepoint of a note created with that deadline must lie in the past for an expired deadline and in the
+             future for a far / absent one (nsync_to_time_point_)
             (cvn / mun / rmun: cv wait, writer-mode and reader-mode mu wait WITH a cancel note that nobody ever notifies and that has
              no expiry: an expired deadline must still give ETIMEDOUT, never ECANCELED; waitn5: five notes, the heap path of nsync_wait_n)
      kind : abs   -> deadline = {sec,nsec} literally
@@ -24,6 +28,9 @@
 #include <unistd.h>
 #include <pthread.h>
 #include <time.h>
+#ifdef __cplusplus
+#include <chrono>
+#endif
 NSYNC_CPP_USING_
 
 static nsync_mu mu;
@@ -72,10 +79,10 @@ int main (int argc, char **argv) {
 		if (dl.tv_nsec > 0) dl.tv_nsec--; else { dl.tv_sec--; dl.tv_nsec = 999999999; }
 	} else { dl = nsync_time_no_deadline; }
 	with_helper = strcmp (kind, "abs") != 0 && strcmp (kind, "rel") != 0;
-	if (strcmp (entry, "note") == 0 || strcmp (entry, "waitn") == 0) note = nsync_note_new (NULL, nsync_time_no_deadline);
+	if (strcmp (entry, "note") == 0 || strcmp (entry, "waitn") == 0 || strcmp (entry, "notetp") == 0 || strcmp (entry, "waitntp") == 0) note = nsync_note_new (NULL, nsync_time_no_deadline);
 	if (strcmp (entry, "waitn5") == 0) { int i; note = nsync_note_new (NULL, nsync_time_no_deadline); for (i = 0; i < 4; i++) more[i] = nsync_note_new (NULL, nsync_time_no_deadline); }
 	if (strcmp (entry, "cvn") == 0 || strcmp (entry, "mun") == 0 || strcmp (entry, "rmun") == 0) cancel = nsync_note_new (NULL, nsync_time_no_deadline);
-	if (strcmp (entry, "counter") == 0) counter = nsync_counter_new (1);
+	if (strcmp (entry, "counter") == 0 || strcmp (entry, "countertp") == 0) counter = nsync_counter_new (1);
 	if (with_helper) pthread_create (&th, NULL, helper, NULL);
 	t0 = mono_ms ();
 	if (strcmp (entry, "cv") == 0) {
@@ -131,6 +138,57 @@ int main (int argc, char **argv) {
 		ret = nsync_wait_n (NULL, NULL, NULL, dl, 1, &pw);
 		t1 = mono_ms (); early = before_deadline (dl);
 		is_timeout = (ret == 1); is_event = (ret == 0);
+#ifdef __cplusplus
+	} else if (strcmp (entry, "exptp") == 0) {
+		/* nsync_note_expiry_timepoint (nsync_to_time_point_): in the past for an expired deadline, in the future for a far or absent one;
+		   for a near future deadline we first let it pass */
+		nsync_note n2 = nsync_note_new (NULL, dl);
+		std::chrono::system_clock::time_point e;
+		if (!with_helper) { while (before_deadline (dl)) usleep (1000); }
+		e = nsync_note_expiry_timepoint (n2);
+		t1 = mono_ms (); early = 0; ret = 0;
+		is_timeout = (e <= std::chrono::system_clock::now ());
+		is_event = !is_timeout;
+		nsync_note_free (n2);
+#endif
+
+#ifdef __cplusplus
+	} else if (strlen (entry) > 2 && strcmp (entry + strlen (entry) - 2, "tp") == 0) {
+		/* the time_point overloads: the time_point is epoch + the deadline's seconds and nanoseconds when that fits in 64 bits of
+		   nanoseconds, else the case does not apply (exit 3) */
+		typedef std::chrono::system_clock::time_point tp_t;
+		tp_t tp;
+		if ((long long) dl.tv_sec > 9000000000LL || (long long) dl.tv_sec < -9000000000LL) { printf ("NA elapsed_ms=0 ret=0 early=0 since_dl_ms=0\n"); return 0; }
+		tp = tp_t () + std::chrono::duration_cast<tp_t::duration> (std::chrono::seconds ((long long) dl.tv_sec) + std::chrono::nanoseconds ((long long) dl.tv_nsec));
+		if (strcmp (entry, "cvtp") == 0) {
+			nsync_mu_lock (&mu);
+			ret = 0;
+			while (!flag && ret == 0) ret = nsync_cv_wait_with_deadline (&cv, &mu, tp, NULL);
+			t1 = mono_ms (); early = before_deadline (dl);
+			is_timeout = (ret == ETIMEDOUT); is_event = (ret == 0 && flag);
+			nsync_mu_unlock (&mu);
+		} else if (strcmp (entry, "mutp") == 0) {
+			nsync_mu_lock (&mu);
+			ret = nsync_mu_wait_with_deadline (&mu, &cond_flag, NULL, NULL, tp, NULL);
+			t1 = mono_ms (); early = before_deadline (dl);
+			is_timeout = (ret == ETIMEDOUT); is_event = (ret == 0 && flag);
+			nsync_mu_unlock (&mu);
+		} else if (strcmp (entry, "notetp") == 0) {
+			ret = nsync_note_wait (note, tp);
+			t1 = mono_ms (); early = before_deadline (dl);
+			is_timeout = (ret == 0); is_event = (ret != 0);
+		} else if (strcmp (entry, "countertp") == 0) {
+			ret = (int) nsync_counter_wait (counter, tp);
+			t1 = mono_ms (); early = before_deadline (dl);
+			is_timeout = (ret != 0); is_event = (ret == 0);
+		} else if (strcmp (entry, "waitntp") == 0) {
+			struct nsync_waitable_s w, *pw = &w;
+			w.v = note; w.funcs = &nsync_note_waitable_funcs;
+			ret = nsync_wait_n (NULL, NULL, NULL, tp, 1, &pw);
+			t1 = mono_ms (); early = before_deadline (dl);
+			is_timeout = (ret == 1); is_event = (ret == 0);
+		} else return 2;
+#endif
 	} else return 2;
 	printf ("%s elapsed_ms=%.1f ret=%d early=%d since_dl_ms=%.1f\n", is_timeout ? "TIMEOUT" : is_event ? "EVENT" : "OTHER",
 		t1 - t0, ret, is_timeout && early, t1 - t_dl);
